@@ -86,6 +86,9 @@ def run_single_history(values, minimize, batches, rec, tag, form="list", number_
 
     from vk.values import as_form
 
+    from vk.values import num
+
+    values = [num(v) for v in values]
     rep = TableRep()
     problem = SingleObjectiveProblem(lambda p: as_form(p[1], number_form), minimize=minimize)
     spy = _mk_recorder()
@@ -144,6 +147,7 @@ def _nontrivial_history(values, minimize):
     best = None
     tie = False
     for v in values:
+        v = float(v) if isinstance(v, str) else v
         if best is None:
             best = v
         elif v == best:
@@ -195,7 +199,7 @@ class RandomHistories(Facet):
     def strategy(self, tier):
         from vk.values import NUMBER_FORMS, exact_int_values, single_objective_values
 
-        val = single_objective_values()
+        val = single_objective_values(infinities=True)
         single = st.builds(
             lambda vs, m, bs, fm, nf: {"kind": "single", "values": vs, "minimize": m, "batches": bs, "form": fm, "number_form": nf},
             st.lists(val, min_size=1, max_size=12),
